@@ -49,7 +49,7 @@ impl W {
     fn pad(&mut self, to: usize) { while self.b.len() < to { self.b.push(0) } }
 }
 
-fn note(id: &[u8], name: &[u8], ty: u32) -> Vec<u8> {
+pub fn note(id: &[u8], name: &[u8], ty: u32) -> Vec<u8> {
     let mut n = Vec::new();
     n.extend_from_slice(&((name.len() + 1) as u32).to_le_bytes());
     n.extend_from_slice(&(id.len() as u32).to_le_bytes());
@@ -214,14 +214,14 @@ pub fn header(b: &[u8]) -> Option<Hdr> {
         Hdr { b64, phoff: rd(b, 28, 4)?, shoff: rd(b, 32, 4)?, phentsize: rd(b, 42, 2)?, phnum: rd(b, 44, 2)?, shentsize: rd(b, 46, 2)?, shnum: rd(b, 48, 2)?, shstrndx: rd(b, 50, 2)? }
     })
 }
-pub struct Ph { pub ty: u64, pub off: u64, pub filesz: u64, pub flags: u64, pub vaddr: u64 }
+pub struct Ph { pub ty: u64, pub off: u64, pub filesz: u64, pub flags: u64, pub vaddr: u64, pub align: u64 }
 pub fn phdrs(b: &[u8], h: &Hdr) -> Vec<Ph> {
     let mut v = Vec::new();
     if h.phoff == 0 { return v; }
     for i in 0..h.phnum {
         let Some(o) = h.phoff.checked_add(i * h.phentsize) else { break };
-        let p = if h.b64 { (rd(b, o, 4), rd(b, o + 8, 8), rd(b, o + 32, 8), rd(b, o + 4, 4), rd(b, o + 16, 8)) } else { (rd(b, o, 4), rd(b, o + 4, 4), rd(b, o + 16, 4), rd(b, o + 24, 4), rd(b, o + 8, 4)) };
-        if let (Some(ty), Some(off), Some(filesz), Some(flags), Some(vaddr)) = p { v.push(Ph { ty, off, filesz, flags, vaddr }) } else { break }
+        let p = if h.b64 { (rd(b, o, 4), rd(b, o + 8, 8), rd(b, o + 32, 8), rd(b, o + 4, 4), rd(b, o + 16, 8), rd(b, o + 48, 8)) } else { (rd(b, o, 4), rd(b, o + 4, 4), rd(b, o + 16, 4), rd(b, o + 24, 4), rd(b, o + 8, 4), rd(b, o + 28, 4)) };
+        if let (Some(ty), Some(off), Some(filesz), Some(flags), Some(vaddr), Some(align)) = p { v.push(Ph { ty, off, filesz, flags, vaddr, align }) } else { break }
     }
     v
 }
@@ -266,7 +266,8 @@ pub fn oracle_build_id(b: &[u8]) -> Option<(Vec<u8>, &'static str)> {
     for p in phdrs(b, &h) {
         if p.ty == 4 {
             if let Some(n) = usize::try_from(p.off).ok().and_then(|o| b.get(o..o.checked_add(p.filesz as usize)?)) {
-                if let Some(id) = gnu_build_id(n, 4) { return Some((id, "ph")); }
+                // each note segment is laid out with its own alignment (8 for .note.gnu.property, 4 for the classic notes)
+                if let Some(id) = gnu_build_id(n, p.align as usize) { return Some((id, "ph")); }
             }
         }
     }
